@@ -2743,4 +2743,55 @@ theorem delete_residual (S : Schema) (hdet : PM.C11.detB S = true) (hleaf : PM.F
     | addNodeMark _ _ => exact hs
     | removeNodeMark _ _ => exact hs
 
+/-- **typing / inserting leaves needs no payload hypothesis**: for `replace(f, t, slice)` with a closed slice of
+    valid leaf / text nodes (`Slice.inlineLeaves`, `Slice.closedValid`: what `insert`, `replace_with` and typing hand
+    to `replace` for inline content), `OpResidual` follows from `DeleteResidual` (normal form of the recorded
+    slice and pair-alignment for a `ReplaceStep`; the full guard for a `ReplaceAroundStep`) — the
+    `C01.PayloadValid` conjunct of the family guard of the recorded `ReplaceStep` is discharged by
+    `C11.insertInline_emits_valid_payload` (schema guards `detB`, `fillersOKB`, `wrapOKB`, `labelsOKB`, `leafOkB`,
+    `textStableC`, `closableB`; the document valid with creatable element types) -/
+theorem insertInline_residual (S : Schema) (hdet : PM.C11.detB S = true) (hfill : S.fillersOKB = true)
+    (hwrap : S.wrapOKB = true) (hlab : S.labelsOKB = true) (hleaf : PM.FromDom.leafOkB S = true)
+    (hts : textStableC S = true) (hcl : S.closableB = true)
+    (tr tr1 : Tr) (hlen : tr.steps.length = tr.docs.length) (hv : C01.Valid S tr.doc)
+    (hattrs : S.nodeAttrsOK tr.doc = true) (f t : Nat) (sl : Slice) (hsl : sl.inlineLeaves S = true)
+    (hslv : sl.closedValid S = true)
+    (h : tr.runOp S (.replace f t sl) = some tr1) (hres : DeleteResidual S tr tr1) :
+    OpResidual S (.replace f t sl) tr tr1 := by
+  have h' : tr.planned (fun st => st.replaceF S f t sl) = some tr1 := h
+  obtain ⟨st', hrun, htr⟩ := Tr.planned_some h'
+  obtain ⟨r, hr, hstep⟩ := PSt.replaceF_spec S { tr := tr } st' f t sl hrun
+  simp only at hr hstep
+  cases r with
+  | none =>
+    simp only at hstep
+    have e : tr1.hist = tr.hist ++ [] := by rw [← htr, hstep]; simp
+    show HistAll (FamilyGuard S) (appended tr tr1) tr1.doc
+    rw [appended_eq e]
+    trivial
+  | some s =>
+    simp only at hstep
+    rw [htr] at hstep
+    obtain ⟨e, _⟩ := Tr.step_hist hlen hstep
+    show HistAll (FamilyGuard S) (appended tr tr1) tr1.doc
+    unfold DeleteResidual at hres
+    rw [appended_eq e] at hres ⊢
+    refine ⟨?_, trivial⟩
+    have hs := hres.1
+    obtain ⟨sl', hsl', hval⟩ := PM.C11.insertInline_emits_valid_payload S hdet hfill hwrap hlab hleaf hts hcl tr.doc f t sl
+      hsl hslv hv hattrs s hr
+    cases s with
+    | replace F T sl0 b =>
+      simp only at hs
+      simp only [Step.sliceOf, Option.some.injEq] at hsl'
+      subst hsl'
+      exact ⟨hs.1, hval, hs.2⟩
+    | replaceAround F T G1 G2 sl0 ins b => exact hs
+    | addMark _ _ _ => exact hs
+    | removeMark _ _ _ => exact hs
+    | attr _ _ _ => exact hs
+    | docAttr _ _ => exact hs
+    | addNodeMark _ _ => exact hs
+    | removeNodeMark _ _ => exact hs
+
 end PM.C04
